@@ -1,6 +1,7 @@
 package main
 
 import (
+	"go/constant"
 	"fmt"
 	"go/types"
 	"strings"
@@ -207,9 +208,9 @@ func (g *Gen) external(f *Frame, fn *ssa.Function, args []Arg, ins ssa.Instructi
 	}
 	// printf-style calls: a format that is not a compile-time constant must be free of '%' (otherwise data is
 	// interpreted as formatting directives and the reported text is no longer the text that was to be reported)
-	if k, isFmt := map[string]int{"fmt.Errorf": 0, "fmt.Sprintf": 0, "fmt.Printf": 0, "fmt.Fprintf": 1, "fmt.Sscanf": 1, "log.Printf": 0, "log.Fatalf": 0}[name]; isFmt && k < len(args) {
+	if k, isFmt := fmtFuncs[name]; isFmt && k < len(args) {
 		if ci, ok := ins.(ssa.CallInstruction); ok && k < len(ci.Common().Args) {
-			if !constFormat(ci.Common().Args[k], 0) {
+			if !constFormat(ci.Common().Args[k], 0) && !g.forwardsOwnFormat(f, ci.Common().Args[k]) {
 				g.safety(f, fmt.Sprintf("(not (str.contains %s \"%%\"))", args[k].t.S), "format-string", ins.Pos())
 			}
 		}
@@ -246,6 +247,14 @@ func (g *Gen) external(f *Frame, fn *ssa.Function, args []Arg, ins ssa.Instructi
 		return one(fmt.Sprintf("(fp.abs %s)", a(0)))
 	case "math.Signbit":
 		return one(fmt.Sprintf("(fp.isNegative %s)", a(0)))
+	case "fmt.Sprintf":
+		// constant format made of %s (strings), %d / %v (integers, strings) and %%: the result is the concatenation
+		if ci, ok := ins.(ssa.CallInstruction); ok && len(ci.Common().Args) == 2 {
+			if s, ok := g.sprintfModel(f, ci.Common().Args[0], ci.Common().Args[1]); ok {
+				g.trusted["fmt.Sprintf with a constant format of plain %s/%d/%v verbs over strings and integers: the concatenation of the literal parts and the operands (decimal for integers)"] = true
+				return one(s)
+			}
+		}
 	case "fmt.Errorf", "errors.New":
 		rs := g.freshResults(f, "err", sig)
 		g.assume(f.en, fmt.Sprintf("(not (= (i_tag %s) 0))", rs[0].S))
@@ -369,4 +378,125 @@ func constFormat(v ssa.Value, depth int) bool {
 		return true
 	}
 	return false
+}
+
+// variadicOperands recognises the SSA idiom for a variadic ...interface{} argument (new [n]any "varargs"; stores of
+// make-interface values; slice) and returns the boxed operands in order.
+func variadicOperands(v ssa.Value) ([]ssa.Value, bool) {
+	if c, ok := v.(*ssa.Const); ok && c.Value == nil {
+		return nil, true
+	}
+	sl, ok := v.(*ssa.Slice)
+	if !ok || sl.Low != nil || sl.High != nil {
+		return nil, false
+	}
+	al, ok := sl.X.(*ssa.Alloc)
+	if !ok || al.Comment != "varargs" {
+		return nil, false
+	}
+	arr, ok := types.Unalias(ptrElem(al.Type())).Underlying().(*types.Array)
+	if !ok {
+		return nil, false
+	}
+	out := make([]ssa.Value, arr.Len())
+	for _, r := range *al.Referrers() {
+		ia, ok := r.(*ssa.IndexAddr)
+		if !ok {
+			continue
+		}
+		c, ok := ia.Index.(*ssa.Const)
+		if !ok {
+			return nil, false
+		}
+		k := c.Int64()
+		for _, r2 := range *ia.Referrers() {
+			st, ok := r2.(*ssa.Store)
+			if !ok || st.Addr != ia {
+				return nil, false
+			}
+			mi, ok := st.Val.(*ssa.MakeInterface)
+			if !ok || out[k] != nil {
+				return nil, false
+			}
+			out[k] = mi.X
+		}
+	}
+	for _, o := range out {
+		if o == nil {
+			return nil, false
+		}
+	}
+	return out, true
+}
+
+// sprintfModel: the SMT string a fmt.Sprintf call returns, for a constant format of plain verbs over method-less
+// string and integer operands.
+func (g *Gen) sprintfModel(f *Frame, format, rest ssa.Value) (string, bool) {
+	fc, ok := format.(*ssa.Const)
+	if !ok || fc.Value == nil || fc.Value.Kind() != constant.String {
+		return "", false
+	}
+	ops, ok := variadicOperands(rest)
+	if !ok {
+		return "", false
+	}
+	fs := constant.StringVal(fc.Value)
+	var parts []string
+	lit := ""
+	flush := func() {
+		if lit != "" {
+			parts = append(parts, smtString(lit))
+			lit = ""
+		}
+	}
+	k := 0
+	for i := 0; i < len(fs); i++ {
+		if fs[i] != '%' {
+			lit += string(fs[i])
+			continue
+		}
+		if i+1 >= len(fs) {
+			return "", false
+		}
+		i++
+		verb := fs[i]
+		if verb == '%' {
+			lit += "%"
+			continue
+		}
+		if k >= len(ops) {
+			return "", false
+		}
+		op := ops[k]
+		k++
+		if types.NewMethodSet(op.Type()).Len() != 0 || types.NewMethodSet(types.NewPointer(op.Type())).Len() != 0 {
+			return "", false
+		}
+		b, ok := types.Unalias(op.Type()).Underlying().(*types.Basic)
+		if !ok {
+			return "", false
+		}
+		t := g.val(f, op)
+		switch {
+		case b.Info()&types.IsString != 0 && (verb == 's' || verb == 'v'):
+			flush()
+			parts = append(parts, t.S)
+		case b.Info()&types.IsInteger != 0 && (verb == 'd' || verb == 'v') && t.Sort == "Int":
+			flush()
+			parts = append(parts, fmt.Sprintf("(itoa %s)", t.S))
+		default:
+			return "", false
+		}
+	}
+	if k != len(ops) {
+		return "", false
+	}
+	flush()
+	switch len(parts) {
+	case 0:
+		return "\"\"", true
+	case 1:
+		return parts[0], true
+	}
+	return "(str.++ " + strings.Join(parts, " ") + ")", true
 }
